@@ -31,7 +31,7 @@ ASSUMPTIONS = [
     'previous step\'s streams are drained), so counters that dumpers add after draining are not part of the comparison',
     'every evaluation builds fresh step objects and fresh scratch directories (checkpoints are always first runs)',
 ]
-BUDGET = {'quick': dict(examples=480, shards=8, seconds=80),
+BUDGET = {'quick': dict(examples=960, shards=16, seconds=80),
           'thorough': dict(examples=64000, shards=16, seconds=1200)}
 
 BAD_LINKS = ['int', 'none', 'object', 'wrong-param', 'two-params', 'zero-params']
